@@ -26,7 +26,9 @@ def jobs(tier, pid="C07"):
         # what a declaration reports beyond its place in the scope: name, type and, for an alias, the aliasee it was declared
         # with -- on first declarations and on redeclarations
         return [job("kinds", 3 if q else 4, [2], ["var", "field", "bitfield", "typedecl", "alias", "ptemplate", "stemplate"]),
-                job("aliases", 4 if q else 5, [1, 2], ["alias", "typedecl"], names=(1, 2), types=(1, 2))]
+                job("aliases", 4 if q else 5, [1, 2], ["alias", "typedecl"], names=(1, 2), types=(1, 2)),
+                # position() of parameters, enumerators, bases and exception parameters (C02 names position() among the read-backs)
+                job("positions", 4 if q else 5, [3, 4, 5, 6], ["param", "enumerator", "base", "ehparam"], names=(1, 2, 3), types=(1, 2))]
     return [
         job("var-fun", 5, [1], ["var", "fundecl"]),
         job("kinds", 4, [2], ["var", "field", "bitfield", "typedecl", "alias", "ptemplate", "stemplate"],
@@ -46,6 +48,15 @@ def run(pid, tier, seed):
     vlib.record_trace(exe, ["record", "--seed", seed, "--runs", 4 if q else 16, "--len", 100 if q else 220,
                             "--names", rn, "--types", rt], tp)
 
+    # many names in one scope entered in an order unrelated to their creation (the name-keyed lookup tree of a scope rebalances
+    # many times), and many types under few names (the type-keyed chain of an overload set does)
+    wide = []
+    for tag, wn, wt in (("names", 40, 2), ("types", 3, 10)):
+        wp = os.path.join(tdir, "%s-%s-%d-%s.ndjson" % (pid, tier, seed, tag))
+        vlib.record_trace(exe, ["record", "--seed", seed + 17, "--runs", 3 if q else 10, "--len", 170 if q else 300,
+                                "--names", wn, "--types", wt], wp, timeout=300)
+        wide.append((wp, wn, wt))
+
     def gen(j):
         return vlib.generate_and_replay("IprScopesMC", "%s-%s" % (pid, j[0]), j[1], exe, ("replay", str(NN), str(NT)),
                                         ["ScInvariant"], ["AppendOnlyMC"], 4, 3000, "6g")
@@ -54,8 +65,15 @@ def run(pid, tier, seed):
         gf = [ex.submit(gen, j) for j in jobs(tier, pid)]
         tf = ex.submit(vlib.validate_trace_resync, "IprScopesTrace", tp, ["ScInvariant"], pid, 4, is_start,
                        {"NNames": rn, "NT": rt, "WithSpec": "FALSE"}, 3000)
+        wf = [ex.submit(vlib.validate_trace_resync, "IprScopesTrace", wp, ["ScInvariant"], "%s-%d" % (pid, wn), 4, is_start,
+                        {"NNames": wn, "NT": wt, "WithSpec": "FALSE"}, 3000) for (wp, wn, wt) in wide]
         gr = [f.result() for f in gf]
         tr = tf.result()
+        for f in wf:
+            w = f.result()
+            for k in ("states", "transitions", "executions", "lines"):
+                tr[k] += w[k]
+            tr["rejections"] += w["rejections"]
 
     violations, samples, per_job = [], [], {}
     states = transitions = beh = steps = failed = 0
@@ -80,7 +98,7 @@ def run(pid, tier, seed):
         for f in r["fails"]:
             part = f["key"].split(":")[1]
             # read-back of what a declaration was given (name, type, aliasee) is C02's; its place in the scope is C07's
-            if (part not in ("init", "n", "t", "spec")) if pid == "C02" else (part in ("init", "spec")):
+            if (part not in ("init", "n", "t", "spec", "pos")) if pid == "C02" else (part in ("init", "spec")):
                 foreign += 1
                 continue
             if f["key"] in seen:
@@ -121,7 +139,8 @@ def run(pid, tier, seed):
                 "declaration-set/position of every declaration, lookup of every name incl. undeclared ones, selection by every "
                 "type) and compared with the derived operators of the spec. A class is kind x (first/redeclaration) x "
                 "(name alone/overloaded). binding B: random histories over %d names, %d types, two heterogeneous scopes, a "
-                "parameter list, an enumeration and a base list, validated by the trace spec." % (rn, rt),
+                "parameter list, an enumeration and a base list, validated by the trace spec; also over 40 names x 2 types and over "
+                "3 names x 10 types (x 3 declaration families) (lookup structures with many keys entered in an order unrelated to their creation)." % (rn, rt),
         "samples": samples, "exhaustive": True, "exhaustive_scope": "per job alphabet and depth", "jobs": per_job,
         "recorded_events": tr["lines"], "failures_attributed_to_other_properties": foreign,
     }
